@@ -95,7 +95,7 @@ def resolve (pdos : List Pdo) (off : StructOff) : Desc → Option Var
 structure Assign where
   inp : Option Nat
   out : Option Nat
-deriving Repr
+deriving DecidableEq, Repr
 
 def Assign.base (a : Assign) : Sm → Option Nat
   | .inp => a.inp | .out => a.out
@@ -303,30 +303,55 @@ def progRun (vars : List Linked) (st : ProgState) : List Op → Option ProgState
 
 /-! ### the Python path as the code really runs it: accessors cached on the `PacketVar` object
 
-`PacketVar.get` / `PacketVar.set` compute `start = self._start(device)` once, build a closure over `start` and
-`device`, store it on the object (`self.get = get`, `self.set = set`) and from then on only that closure runs
-(`assert instance is device`).  So the start a later access uses is the one of the sync group in which the object
-was first read resp. written, and a second device linked to the same object trips the assertion. -/
+`PacketVar.get` / `PacketVar.set` compute `start = self._start(device)` once, build a closure over `start`,
+`device` and the group's `pdo_assign`, and store it on the object (`self.get = get`, `self.set = set`).  A closure
+is the device it was built for and the `pdo_assign` it was built under; the start it holds is `_start` under that
+`pdo_assign` (the object's terminal, sync manager and position never change).
+
+* repaired code (`_rebound`): a closure called for another device, or after the group's `pdo_assign` changed, removes
+  itself and the accessor is rebuilt (`bindNew`).  `pdo_assign is not assign` is modelled by inequality of the
+  terminal's assignment; an equal assignment gives the same start anyway.
+* code before the repair (`bindOld`, kept for the refutation theorems): the closure was never rebuilt — it kept the
+  start of the first sync group and `assert instance is device` failed for a second device. -/
 
 inductive PyErr | structError | assertion | badIndex
 deriving DecidableEq, Repr
 
-/-- per `PacketVar` object: the (device, start) its cached `get` resp. `set` closure is bound to -/
+/-- per `PacketVar` object: the (device, pdo_assign of its terminal) its cached `get` resp. `set` closure was built for -/
 structure PvCache where
-  getter : Option (Nat × Nat)
-  setter : Option (Nat × Nat)
+  getter : Option (Nat × Assign)
+  setter : Option (Nat × Assign)
 deriving DecidableEq, Repr
 
 def PvCache.empty : PvCache := ⟨none, none⟩
 
-/-- one call through `self.get` / `self.set`: the start that is used and the binding afterwards -/
-def bindStart (c : Option (Nat × Nat)) (dev : Nat) (fresh : Option Nat) : Except PyErr (Nat × Option (Nat × Nat)) :=
+/-- one call through `self.get` / `self.set` by device `dev` in a group assigning `a`: the start used, the closure afterwards -/
+abbrev Binder := Option (Nat × Assign) → Nat → Assign → Var → Except PyErr (Nat × Option (Nat × Assign))
+
+def rebind (dev : Nat) (a : Assign) (v : Var) : Except PyErr (Nat × Option (Nat × Assign)) :=
+  match start a v with
+  | some s => .ok (s, some (dev, a))
+  | none => .error .badIndex
+
+def bindNew : Binder := fun c dev a v =>
   match c with
-  | none =>
-    match fresh with
-    | some s => .ok (s, some (dev, s))
-    | none => .error .badIndex
-  | some (d, s) => if d == dev then .ok (s, c) else .error .assertion
+  | none => rebind dev a v
+  | some (d, a') =>
+    if d == dev && a' == a then
+      match start a' v with
+      | some s => .ok (s, c)
+      | none => .error .badIndex
+    else rebind dev a v
+
+def bindOld : Binder := fun c dev a v =>
+  match c with
+  | none => rebind dev a v
+  | some (d, a') =>
+    if d == dev then
+      match start a' v with
+      | some s => .ok (s, c)
+      | none => .error .badIndex
+    else .error .assertion
 
 structure CState where
   st : PyState
@@ -338,21 +363,21 @@ def linkedAt (vars : List Linked) (i : Nat) : Except PyErr Linked :=
   | some l => .ok l
   | none => .error .badIndex
 
-def getterStart (vars : List Linked) (caches : List PvCache) (i : Nat) : Except PyErr (Linked × Nat × List PvCache) := do
+def getterStart (b : Binder) (vars : List Linked) (caches : List PvCache) (i : Nat) : Except PyErr (Linked × Nat × List PvCache) := do
   let l ← linkedAt vars i
   let c := caches.getD l.obj PvCache.empty
-  let (s, g) ← bindStart c.getter l.dev (start l.assign l.var)
+  let (s, g) ← b c.getter l.dev l.assign l.var
   pure (l, s, caches.set l.obj { c with getter := g })
 
-def setterStart (vars : List Linked) (caches : List PvCache) (i : Nat) : Except PyErr (Linked × Nat × List PvCache) := do
+def setterStart (b : Binder) (vars : List Linked) (caches : List PvCache) (i : Nat) : Except PyErr (Linked × Nat × List PvCache) := do
   let l ← linkedAt vars i
   let c := caches.getD l.obj PvCache.empty
-  let (s, g) ← bindStart c.setter l.dev (start l.assign l.var)
+  let (s, g) ← b c.setter l.dev l.assign l.var
   pure (l, s, caches.set l.obj { c with setter := g })
 
-def pyValueC (vars : List Linked) (cs : CState) : Src → Except PyErr (Int × List PvCache)
+def pyValueC (b : Binder) (vars : List Linked) (cs : CState) : Src → Except PyErr (Int × List PvCache)
   | .var i => do
-    let (l, s, caches) ← getterStart vars cs.caches i
+    let (l, s, caches) ← getterStart b vars cs.caches i
     pure (pyReadAt l.var.size cs.st.data s, caches)
   | .dv j =>
     match cs.st.dvs[j]? with
@@ -361,28 +386,33 @@ def pyValueC (vars : List Linked) (cs : CState) : Src → Except PyErr (Int × L
   | .const k => .ok (k, cs.caches)
 
 /-- one statement; an error carries the accessor bindings made before it was raised (they stay on the objects) -/
-def pyStepC (vars : List Linked) (cs : CState) : Op → Except (PyErr × List PvCache) CState
+def pyStepW (b : Binder) (vars : List Linked) (cs : CState) : Op → Except (PyErr × List PvCache) CState
   | .get j i =>
-    match pyValueC vars cs (.var i) with
+    match pyValueC b vars cs (.var i) with
     | .error e => .error (e, cs.caches)
     | .ok (v, caches) => .ok ⟨{ cs.st with dvs := cs.st.dvs.set j v }, caches⟩
   | .set d src =>
-    match pyValueC vars cs src with                  -- the right-hand side is evaluated first
+    match pyValueC b vars cs src with                -- the right-hand side is evaluated first
     | .error e => .error (e, cs.caches)
     | .ok (v, caches) =>
-      match setterStart vars caches d with
+      match setterStart b vars caches d with
       | .error e => .error (e, caches)
       | .ok (l, s, caches) =>
         match pyStoreAt l.var.size cs.st s v with     -- `self.set = set` precedes `set(device, value)`
         | some st => .ok ⟨st, caches⟩
         | none => .error (.structError, caches)
 
-def pyRunC (vars : List Linked) (cs : CState) : List Op → Except (PyErr × List PvCache) CState
+def pyRunW (b : Binder) (vars : List Linked) (cs : CState) : List Op → Except (PyErr × List PvCache) CState
   | [] => .ok cs
   | o :: os =>
-    match pyStepC vars cs o with
-    | .ok cs' => pyRunC vars cs' os
+    match pyStepW b vars cs o with
+    | .ok cs' => pyRunW b vars cs' os
     | .error e => .error e
 
-end Ebv.ProcVar
+/-- the Python path of the working tree -/
+def pyStepC := pyStepW bindNew
+def pyRunC := pyRunW bindNew
+/-- the Python path before the repair -/
+def pyRunCOld := pyRunW bindOld
 
+end Ebv.ProcVar
